@@ -343,7 +343,7 @@ def r16_7(run):
 
 def check(run):
     run.rule("R16.1", "every as_strided view is read-only (or strides a buffer the function allocated itself)", floor=2)
-    run.rule("R16.2", "sliding_window_view validates before it strides and reads strides after the contiguity normalisation; "
+    run.rule("R16.2", "sliding_window_view validates and normalises to C-contiguity before it strides; "
              "ConvND/MaxPoolND size checks dominate window creation", floor=14)
     run.rule("R16.3", "the dilated-extent polynomial a layer accepts equals the one sliding_window_view enforces (term domain); the guard is "
              "at least as strict as the placement formula", floor=4)
